@@ -28,6 +28,7 @@ structure TractObj where
   source : OptStr
   parseComplete : Bool := false
   fl : Tract.Flags := {}
+  generated : Tract.Flags := {}      -- `_parse_generated_flags`: what the last committed parse added
   lots : List Str := []
   qqs : List Str := []
   lotAcres : List (Str × Str) := []
@@ -82,14 +83,26 @@ def effectiveTract (attrs : Attrs) (kw : TractKw) : Tract.ParseArgs :=
   { cleanQQ := cleanQQ, suppressLotDivs := sup,
     depth := { qqMin := mn, qqMax := mx, qqDepth := kw.qqDepth, breakHalves := bh } }
 
+/-- `list.remove(x)` for each x of `gone`, when present -/
+def removeEach (l gone : List PyVal) : List PyVal :=
+  gone.foldl (fun acc x => if acc.contains x then acc.erase x else acc) l
+
+/-- the flags a TractParser copies from its parent: everything except what the previous parse generated -/
+def inheritedFlags (t : TractObj) : Tract.Flags :=
+  { w := removeEach t.fl.w t.generated.w, wl := removeEach t.fl.wl t.generated.wl,
+    e := removeEach t.fl.e t.generated.e, el := removeEach t.fl.el t.generated.el }
+
 /-- `Tract.parse(commit, **kw)`; returns (object, returned lots+qqs) -/
 def tractParseMethod (t : TractObj) (commit : Bool) (kw : TractKw) : Except PyErr (TractObj × List Str) :=
-  match Tract.tractParse t.desc (effectiveTract t.attrs kw) t.fl with
+  let inh := inheritedFlags t
+  match Tract.tractParse t.desc (effectiveTract t.attrs kw) inh with
   | .error e => .error e
   | .ok r =>
     if commit then
       .ok ({ t with parseComplete := true, lots := r.lots, qqs := r.qqs, lotAcres := r.lotAcres,
                     aliquotsWhole := r.aliquotsWhole, fl := r.flags, ppDesc := r.text,
+                    generated := { w := r.flags.w.drop inh.w.length, wl := r.flags.wl.drop inh.wl.length,
+                                   e := r.flags.e.drop inh.e.length, el := r.flags.el.drop inh.el.length },
                     diverged := t.diverged || r.diverged }, r.lots ++ r.qqs)
     else .ok ({ t with diverged := t.diverged || r.diverged }, r.lots ++ r.qqs)
 
@@ -241,7 +254,7 @@ def plssParser (mc : MC) (uid0 : Nat) (text : Str) (a : ParserArgs)
     fl := { fl with e := fl.e ++ [.str flag], el := fl.el ++ [.tup [.str flag, .str flag]] }
   -- hand_down_flags
   let dfl := fl
-  tracts := tracts.map (fun t => { t with fl := { w := t.fl.w ++ dfl.w, wl := t.fl.wl ++ dfl.wl, e := t.fl.e ++ dfl.e, el := t.fl.el ++ dfl.el } })
+  tracts := tracts.map (fun t => { t with fl := { w := dfl.w ++ t.fl.w, wl := dfl.wl ++ t.fl.wl, e := dfl.e ++ t.fl.e, el := dfl.el ++ t.fl.el } })
   return { tracts := tracts, fl := fl, layout := layout, text := ptext, nextUid := uid0 + next,
            diverged := pp.diverged || tracts.any (·.diverged), handedDown := handedDown }
 
